@@ -50,6 +50,8 @@ def _gen_marathon(rng):
             opl.append({"op": "write_input", "dir": pth[0], "stem": pth[1], "ext": pth[2],
                         "games": rng.sample(range(3), rng.randint(1, 3)), "style": rng.choice(textstyle.STYLES), "seed": rng.randint(0, 999)})
         opl.append({"op": "lib", "dir": pth[0], "stem": pth[1], "ext": pth[2], "save": rng.random() < 0.8})
+        if rng.random() < 0.2:
+            opl[-1]["scribble"] = True
     return {"cfg": {"klass": "marathon", "fd_spare": 48}, "pool": pool, "ops": opl}
 
 
@@ -93,6 +95,8 @@ def gen(rng, tier, ctx):
                 opl.append({"op": "tweak_input", "dir": pth[0], "stem": pth[1], "ext": pth[2],
                             "pick": rng.randint(0, 99), "coarse": rng.random() < 0.6})
             op = {"op": "lib", "dir": pth[0], "stem": pth[1], "ext": pth[2], "save": rng.random() < 0.8}
+            if rng.random() < 0.3:
+                op["scribble"] = True       # the session edits the games it read and the results it got
             if klass == "faulty":
                 env = common.gen_env(rng, True)
                 if env:
@@ -408,6 +412,8 @@ def execute(spec, w, ctx):
         if kind == "lib":
             w.fired("same-process-session-call")
         v = _judge(i_op, op, out, cap, before, w, denoted, clean=not faulted, inputs=set(files))
+        if kind == "lib" and op.get("scribble"):
+            w.fired("caller-edits-returned-value", ops.scribble(cap.get("arg_obj")) + ops.scribble(cap.get("ret_obj")))
         if v is None and out["status"] == "ok" and op.get("save"):
             stem = op["stem"]
             now = h(w.fs.read_bytes("outputs/%s.txt" % stem))
